@@ -63,6 +63,66 @@ def kfloor(xs, period=PERIOD):
     return [math.floor(Fraction(float(x)) / P) for x in xs]
 
 
+
+# ---------------------------------------------------------------------------
+# Independent numpy references (never call the implementation): node coordinates
+# from the grid definition, cells, overlaps by brute force over periodic images.
+def ref_lat_nodes(kind, n):
+    if kind == 'gauss':
+        import scipy.special
+        return np.arcsin(scipy.special.roots_legendre(n)[0])
+    if kind == 'equiangular':
+        return -np.pi / 2 + (np.arange(n) + 0.5) * np.pi / n
+    return np.linspace(-np.pi / 2, np.pi / 2, n)          # equiangular_with_poles
+
+
+def ref_lon_nodes(n, offset):
+    return 2 * np.pi * np.arange(n) / n + offset
+
+
+def ref_lat_bounds(x):
+    x = np.asarray(x, dtype=np.float64)
+    return np.concatenate([[-np.pi / 2], 0.5 * (x[:-1] + x[1:]), [np.pi / 2]])
+
+
+def ref_lon_cells(x, period=PERIOD):
+    """cells of cyclically ordered points: from the midpoint to the previous point to the
+    midpoint to the next one, computed on the sorted reduced points (not by phase alignment)"""
+    p = np.mod(np.asarray(x, dtype=np.float64), period)
+    o = np.argsort(p, kind='stable'); ps = p[o]; n = ps.size
+    prev_ = np.concatenate([[ps[-1] - period], ps[:-1]]); next_ = np.concatenate([ps[1:], [ps[0] + period]])
+    lo = np.empty(n); up = np.empty(n)
+    lo[o] = 0.5 * (prev_ + ps); up[o] = 0.5 * (ps + next_)
+    return lo, up
+
+
+def ref_overlap(tlo, tup, slo, sup, period=None):
+    tlo = np.asarray(tlo)[:, None]; tup = np.asarray(tup)[:, None]; slo = np.asarray(slo)[None, :]; sup = np.asarray(sup)[None, :]
+    ks = [0] if period is None else range(-3, 4)
+    return sum(np.maximum(np.minimum(tup, sup + k * (period or 0.0)) - np.maximum(tlo, slo + k * (period or 0.0)), 0.0) for k in ks)
+
+
+def ref_lat_weights(sx, tx):
+    sb = np.sin(ref_lat_bounds(sx)); tb = np.sin(ref_lat_bounds(tx))
+    ov = ref_overlap(tb[:-1], tb[1:], sb[:-1], sb[1:])
+    return ov / ov.sum(axis=1, keepdims=True), np.diff(tb), np.diff(sb)
+
+
+def ref_touch(sx, tx, lon, eps=1e-9):
+    """1 where a source and a target cell overlap or merely touch (rounding may give such pairs a tiny weight)"""
+    if lon:
+        slo, sup = ref_lon_cells(sx); tlo, tup = ref_lon_cells(tx)
+        return (ref_overlap(tlo - eps, tup + eps, slo, sup, PERIOD) > 0) * 1.0
+    sb = ref_lat_bounds(sx); tb = ref_lat_bounds(tx)
+    return (ref_overlap(tb[:-1] - eps, tb[1:] + eps, sb[:-1], sb[1:]) > 0) * 1.0
+
+
+def ref_lon_weights(sx, tx, period=PERIOD):
+    slo, sup = ref_lon_cells(sx, period); tlo, tup = ref_lon_cells(tx, period)
+    ov = ref_overlap(tlo, tup, slo, sup, period)
+    return ov / ov.sum(axis=1, keepdims=True), tup - tlo, sup - slo
+
+
 # ---------------------------------------------------------------------------
 SPACINGS = ['gauss', 'equiangular', 'equiangular_with_poles']
 
@@ -73,7 +133,7 @@ def lat_centres(kind, n, rng=None):
         inc = rng.integers(1, 9, size=n + 1).astype(np.float64)
         c = np.cumsum(inc)[:-1] / inc.sum()
         return (-HPI + np.pi * c).tolist()
-    return np.asarray(sh.Grid(longitude_nodes=4, latitude_nodes=n, latitude_spacing=kind).latitudes).tolist()
+    return ref_lat_nodes(kind, n).tolist()
 
 
 def lon_centres(kind, n, offset, rng=None):
@@ -113,6 +173,28 @@ def generate(ctx):
         if r == 3: ks, kt, ns, nt = 'equiangular', 'equiangular', 12, 6    # nested
         ctx.count(f'lat:{ks}->{kt}'); ctx.count('lat:' + ('coarser' if nt < ns else 'finer' if nt > ns else 'same'))
         yield 'lat', {'sx': lat_centres(ks, ns, rng), 'tx': lat_centres(kt, nt, rng), 'fseed': int(rng.integers(0, 2 ** 31))}
+    # latitude: sizes 1..3, equal node counts with different spacing, target = source, very fine vs very coarse
+    extra_lat = [('gauss', 6, 'equiangular', 1, 0), ('equiangular_with_poles', 1, 'gauss', 4, 0), ('gauss', 2, 'equiangular', 2, 0),
+                 ('equiangular', 3, 'equiangular_with_poles', 3, 0), ('gauss', 8, 'equiangular', 8, 0),
+                 ('equiangular', 8, 'equiangular_with_poles', 8, 0), ('equiangular_with_poles', 5, 'gauss', 5, 0),
+                 ('gauss', 6, 'gauss', 6, 1), ('equiangular_with_poles', 5, 'equiangular_with_poles', 5, 1),
+                 ('gauss', 96, 'equiangular', 2, 0), ('equiangular_with_poles', 3, 'gauss', 96, 0)]
+    if not quick:
+        extra_lat += [('gauss', 192, 'equiangular_with_poles', 2, 0), ('equiangular', 2, 'gauss', 160, 0), ('equiangular', 1, 'equiangular', 1, 1),
+                      ('gauss', 33, 'equiangular', 33, 0), ('equiangular', 64, 'equiangular', 64, 1)]
+    for ks, ns, kt, nt, ident in extra_lat:
+        ctx.count('lat:extra ' + ('identity' if ident else 'same count, other spacing' if ns == nt else 'size<=3' if min(ns, nt) <= 3 and max(ns, nt) < 90 else 'fine vs coarse'))
+        yield 'lat', {'sx': lat_centres(ks, ns, rng), 'tx': lat_centres(kt, nt, rng), 'fseed': int(rng.integers(0, 2 ** 31)), 'identity': bool(ident)}
+    # longitude: target = source, very fine vs very coarse, offsets >= one grid spacing / negative on both sides
+    extra_lon = [(8, 0.3, 8, 0.3, 1), (3, -0.3, 3, -0.3, 1), (128, 0.0, 3, 0.05, 0), (3, 0.3, 128, -0.3, 0),
+                 (8, 1.5 * PERIOD / 8, 6, 0.0, 0), (6, 0.0, 8, 1.5 * PERIOD / 8, 0), (12, -2.5 * PERIOD / 12, 5, -1.25 * PERIOD / 5, 0),
+                 (5, 7.0, 12, 2 * PERIOD + 0.05, 0)]
+    if not quick:
+        extra_lon += [(256, 0.05, 3, 0.0, 0), (4, 0.0, 200, 7.0, 0), (48, 3.5 * PERIOD / 48, 48, 3.5 * PERIOD / 48, 1), (7, -PERIOD - 0.3, 9, -0.05, 0)]
+    for ns, os_, nt, ot, ident in extra_lon:
+        ctx.count('lon:extra ' + ('identity' if ident else 'fine vs coarse' if max(ns, nt) >= 100 else 'offset >= spacing / negative'))
+        yield 'lon', {'sx': lon_centres('uniform', ns, os_, rng), 'tx': lon_centres('uniform', nt, ot, rng),
+                      'fseed': int(rng.integers(0, 2 ** 31)), 'identity': bool(ident)}
     # longitude
     nlon = 16 if quick else 90
     for r in range(nlon):
@@ -169,49 +251,89 @@ def generate(ctx):
             a = {'a': aa.tolist(), 'b': bb.tolist()}
         ctx.count('hybrid:' + h)
         yield 'hybrid', {'hyb': h, 'ab': a, 'sigma': sig, 'sp': sp, 'fseed': int(rng.integers(0, 2 ** 31))}
+    # hybrid coordinates whose top boundary is at non-zero pressure, with thin top layers, onto sigma levels with
+    # thin top layers (some target layers lie entirely above the source top: NaN rows); other array forms
+    for r in range(2 if quick else 8):
+        top = [1.0, 0.25, 5.0, 0.01][r % 4]
+        aa = np.concatenate([top + np.array([0.0, 0.01, 0.03, 0.1, 1.0, 10.0, 60.0]), np.linspace(60.0 + top, 0.0, 6)[1:]])
+        bb = np.concatenate([np.zeros(7), np.linspace(0.0, 1.0, 6)[1:]])
+        sig = np.concatenate([[0.0, 0.0002, 0.0005, 0.002, 0.01], np.linspace(0.1, 1.0, 5)]).tolist()
+        ctx.count('hybrid:top at non-zero pressure, thin top layers')
+        yield 'hybrid', {'hyb': 'synthetic', 'ab': {'a': aa.tolist(), 'b': bb.tolist()}, 'sigma': sig,
+                         'sp': (500.0 + 550.0 * rng.integers(0, 1025, size=(2, 2)) / 1024.0).tolist(),
+                         'fseed': int(rng.integers(0, 2 ** 31)), 'forms': True}
     # batched hybrid -> sigma (leading axis on surface pressure and field)
     for r in range(2 if quick else 6):
         h = ['synthetic', 'UFS127', 'ECMWF137'][r % 3]
         a = None
+        T = 10 if (h == 'synthetic' and not quick) else 2          # batch size = number of source layers
         if h == 'synthetic':
             up = np.concatenate([[0.0], np.cumsum(rng.integers(1, 40, size=4)).astype(np.float64)])
             a = {'a': np.concatenate([up, np.linspace(up[-1], 0.0, 6)[1:]]).tolist(),
                  'b': np.concatenate([np.zeros(5), np.linspace(0.0, 1.0, 6)[1:]]).tolist()}
         yield 'hybrid_batch', {'hyb': h, 'ab': a, 'sigma': util.uneven_boundaries(rng, 6).tolist(),
-                               'sp': (500.0 + 550.0 * rng.integers(0, 1025, size=(2, 2, 2)) / 1024.0).tolist(),
+                               'sp': (500.0 + 550.0 * rng.integers(0, 1025, size=(T, 2, 2)) / 1024.0).tolist(),
                                'fseed': int(rng.integers(0, 2 ** 31))}
     # batched ConservativeRegridder: NaN pattern differs from slice to slice
     batch_pats = [['none', 'single', 'row', 'all'], ['single', 'none', 'blob', 'lonline'], ['all', 'none', 'single', 'row'],
-                  ['row', 'row', 'none', 'single']]
+                  ['row', 'row', 'none', 'single'], ['band', 'all', 'none', 'band']]
     for r in range(6 if quick else 30):
-        small = r % 3 != 2
+        small = r % 3 != 2 or r % 6 == 2
         lo = [3, 4, 5, 6, 8] if small else [8, 12, 16, 24]
         nls = int(lo[int(rng.integers(0, len(lo)))]); nlt = int(lo[int(rng.integers(0, len(lo)))])
         src = {'nlon': nls, 'nlat': max(2, nls // 2), 'spacing': SPACINGS[int(rng.integers(0, 3))], 'offset': [0.0, 0.05, 0.3][int(rng.integers(0, 3))]}
         tgt = {'nlon': nlt, 'nlat': max(2, nlt // 2), 'spacing': SPACINGS[int(rng.integers(0, 3))], 'offset': [0.0, 0.05, 0.3][int(rng.integers(0, 3))]}
-        lead = [[4], [2, 2], [3], [2, 3]][r % 4]
+        lead = [[4], [2, 2], ['nlon'], [1, 2, 1], [1], [2, 3]][r % 6]          # 'nlon': batch size = number of longitudes
         ctx.count('batch:lead=%s' % lead); ctx.count('batch:' + ('model+oracle' if small else 'oracle-only'))
         for skipna in (0, 1):
-            yield 'regrid_batch', {'src': src, 'tgt': tgt, 'skipna': skipna, 'lead': lead, 'patterns': batch_pats[r % 4],
+            yield 'regrid_batch', {'src': src, 'tgt': tgt, 'skipna': skipna, 'lead': lead, 'patterns': batch_pats[r % 5],
                                    'model': bool(small), 'fseed': int(rng.integers(0, 2 ** 31))}
     # full ConservativeRegridder
     n2 = 14 if quick else 60
-    pats = ['none', 'single', 'row', 'all', 'blob', 'lonline']
+    pats = ['none', 'single', 'row', 'all', 'blob', 'lonline', 'band']
+    fkinds = ['random', 'random', 'integer', 'delta', 'zonal', 'zero']
+    def offs(n): return [0.0, 0.05, 0.3, math.pi / n, -0.3, 1.5 * PERIOD / n, 7.0, -PERIOD - 0.1]
     for r in range(n2):
         small = (r % 2 == 0) or not quick and r % 3 == 0
         lo = [3, 4, 5, 6, 8] if small else [3] + [s for s in sizes if s <= smax]
         nls = int(lo[int(rng.integers(0, len(lo)))]); nlt = int(lo[int(rng.integers(0, len(lo)))])
         nas = int(rng.integers(max(2, nls // 2 - 1), nls // 2 + 2)); nat_ = int(rng.integers(max(2, nlt // 2 - 1), nlt // 2 + 2))
-        src = {'nlon': nls, 'nlat': nas, 'spacing': SPACINGS[int(rng.integers(0, 3))],
-               'offset': [0.0, 0.05, 0.3, math.pi / nls][int(rng.integers(0, 4))]}
-        tgt = {'nlon': nlt, 'nlat': nat_, 'spacing': SPACINGS[int(rng.integers(0, 3))],
-               'offset': [0.0, 0.05, 0.3, math.pi / nlt][int(rng.integers(0, 4))]}
+        src = {'nlon': nls, 'nlat': nas, 'spacing': SPACINGS[int(rng.integers(0, 3))], 'offset': offs(nls)[int(rng.integers(0, 8))]}
+        tgt = {'nlon': nlt, 'nlat': nat_, 'spacing': SPACINGS[int(rng.integers(0, 3))], 'offset': offs(nlt)[int(rng.integers(0, 8))]}
         pat = pats[(r // 2) % len(pats)]
-        ctx.count('2d:pattern=' + pat); ctx.count('2d:' + ('model+oracle' if small else 'oracle-only'))
+        fk = fkinds[r % len(fkinds)] if pat in ('none', 'single') else 'random'
+        ctx.count('2d:pattern=' + pat); ctx.count('2d:' + ('model+oracle' if small else 'oracle-only')); ctx.count('2d:field=' + fk)
         ctx.count('2d:%s->%s' % (src['spacing'], tgt['spacing']))
+        ctx.count('2d:source offset ' + ('negative' if src['offset'] < 0 else '>= spacing' if src['offset'] >= PERIOD / nls else 'small'))
         for skipna in (0, 1):
-            yield 'regrid2d', {'src': src, 'tgt': tgt, 'skipna': skipna, 'pattern': pat, 'model': bool(small),
-                               'fseed': int(rng.integers(0, 2 ** 31))}
+            yield 'regrid2d', {'src': src, 'tgt': tgt, 'skipna': skipna, 'pattern': pat, 'model': bool(small), 'fkind': fk,
+                               'forms': bool(r % 3 == 0), 'fseed': int(rng.integers(0, 2 ** 31))}
+    # target = source; equal node counts with different latitude spacing; tall / wide; very fine vs very coarse
+    special = [({'nlon': 6, 'nlat': 3, 'spacing': 'gauss', 'offset': 0.3}, None, 1, True),
+               ({'nlon': 16, 'nlat': 8, 'spacing': 'equiangular_with_poles', 'offset': -0.3}, None, 1, False),
+               ({'nlon': 8, 'nlat': 4, 'spacing': 'gauss', 'offset': 0.0}, {'nlon': 8, 'nlat': 4, 'spacing': 'equiangular', 'offset': 0.0}, 0, True),
+               ({'nlon': 8, 'nlat': 4, 'spacing': 'equiangular', 'offset': 0.05}, {'nlon': 8, 'nlat': 4, 'spacing': 'equiangular_with_poles', 'offset': 1.5 * PERIOD / 8}, 0, True),
+               ({'nlon': 128, 'nlat': 4, 'spacing': 'gauss', 'offset': 0.0}, {'nlon': 4, 'nlat': 64, 'spacing': 'equiangular', 'offset': 0.05}, 0, False),
+               ({'nlon': 64, 'nlat': 32, 'spacing': 'gauss', 'offset': 0.0}, {'nlon': 3, 'nlat': 2, 'spacing': 'equiangular', 'offset': 0.3}, 0, False),
+               ({'nlon': 3, 'nlat': 1, 'spacing': 'equiangular', 'offset': 0.0}, {'nlon': 48, 'nlat': 24, 'spacing': 'gauss', 'offset': -0.3}, 0, False)]
+    if not quick:
+        special += [({'nlon': 256, 'nlat': 2, 'spacing': 'equiangular', 'offset': 0.0}, {'nlon': 3, 'nlat': 128, 'spacing': 'gauss', 'offset': 7.0}, 0, False),
+                    ({'nlon': 192, 'nlat': 96, 'spacing': 'gauss', 'offset': 0.0}, {'nlon': 4, 'nlat': 2, 'spacing': 'equiangular_with_poles', 'offset': 0.0}, 0, False),
+                    ({'nlon': 5, 'nlat': 3, 'spacing': 'gauss', 'offset': 0.0}, {'nlon': 160, 'nlat': 80, 'spacing': 'equiangular', 'offset': 0.05}, 0, False),
+                    ({'nlon': 48, 'nlat': 24, 'spacing': 'equiangular', 'offset': 7.0}, None, 1, False)]
+    for k, (src, tgt, ident, model) in enumerate(special):
+        tgt = dict(src) if tgt is None else tgt
+        ctx.count('2d:special ' + ('identity' if ident else 'same count, other spacing' if src['nlat'] == tgt['nlat'] and src['nlon'] == tgt['nlon'] else 'tall/wide/fine vs coarse'))
+        for skipna, pat in ((0, 'none'), (1, 'band'), (0, 'single')):
+            yield 'regrid2d', {'src': src, 'tgt': tgt, 'skipna': skipna, 'pattern': pat, 'model': bool(model), 'fkind': 'random',
+                               'identity': bool(ident), 'forms': k == 0, 'fseed': int(rng.integers(0, 2 ** 31))}
+    # configurations differing in one field, evaluated in both orders in one process
+    for r in range(2 if quick else 6):
+        nl = [6, 8, 5, 12][r % 4]
+        src = {'nlon': nl, 'nlat': nl // 2, 'spacing': SPACINGS[r % 3], 'offset': 0.0}
+        tgt = {'nlon': [4, 5, 9][r % 3], 'nlat': 3, 'spacing': SPACINGS[(r + 1) % 3], 'offset': 0.05}
+        yield 'static_pairs', {'src': src, 'tgt': tgt, 'offset2': [0.3, -0.3, 1.5 * PERIOD / nl][r % 3], 'spacing2': SPACINGS[(r + 2) % 3],
+                               'order': [int(v) for v in rng.permutation(6)], 'fseed': int(rng.integers(0, 2 ** 31))}
 
 
 # ---------------------------------------------------------------------------
@@ -279,9 +401,15 @@ def r_lat(ctx, a):
     ctx.exact('conservative_latitude_weights shape', list(w.shape), [n, m])
     _weight_oracles(ctx, 'latitude', w)
     x = _field(a['fseed'], (m,))
-    _apply_oracles(ctx, 'latitude', w, x, np.diff(st), np.diff(ss))
-    ctx.oracle_close('latitude: overlaps of a target cell add up to its sin-measure', ov.sum(axis=1), np.diff(st), scale=2.0)
-    ctx.oracle_close('latitude: overlaps of a source cell add up to its sin-measure', ov.sum(axis=0), np.diff(ss), scale=2.0)
+    rw, mt, ms = ref_lat_weights(sx, tx)                      # independent of the implementation
+    ctx.oracle_close('latitude: weights equal the area fractions computed independently', w, rw, scale=1.0)
+    _apply_oracles(ctx, 'latitude', w, x, mt, ms)
+    ctx.oracle_close('latitude: overlaps of a target cell add up to its sin-measure', ov.sum(axis=1), mt, scale=2.0)
+    ctx.oracle_close('latitude: overlaps of a source cell add up to its sin-measure', ov.sum(axis=0), ms, scale=2.0)
+    wj = np.asarray(hi.conservative_latitude_weights(jnp.asarray(sx), jnp.asarray(tx)))
+    ctx.oracle('latitude: jax-array and numpy-array inputs give identical weights', bool(np.array_equal(w, wj)))
+    if a.get('identity'):
+        ctx.oracle_close('latitude: target = source gives the identity matrix', w, np.eye(n), scale=1.0)
 
 
 def _lon_cells(hi, x):
@@ -322,12 +450,20 @@ def r_lon(ctx, a):
     ctx.corr('conservative_longitude_weights', w, mw[:n * m] if mw else None, scale=1.0)
     ctx.exact('conservative_longitude_weights shape', list(w.shape), [n, m])
     _weight_oracles(ctx, 'longitude', w)
-    _, slo, sup = _lon_cells(hi, sx); _, tlo, tup = _lon_cells(hi, tx)
+    _, islo, isup = _lon_cells(hi, sx); _, itlo, itup = _lon_cells(hi, tx)
+    rw, mt, ms = ref_lon_weights(sx, tx)                      # independent of the implementation
+    ctx.oracle_close('longitude: cell widths equal those of the cyclically sorted points', np.concatenate([isup - islo, itup - itlo]),
+                     np.concatenate([ms, mt]), scale=PERIOD)
+    ctx.oracle_close('longitude: weights equal the overlap fractions computed independently', w, rw, scale=1.0)
     x = _field(a['fseed'], (m,))
-    _apply_oracles(ctx, 'longitude', w, x, tup - tlo, sup - slo)
-    ctx.oracle_close('longitude: cells partition the circle', [float((sup - slo).sum()), float((tup - tlo).sum())], [PERIOD, PERIOD], scale=PERIOD)
-    ctx.oracle_close('longitude: overlaps of a target cell add up to its width', ov.sum(axis=1), tup - tlo, scale=PERIOD)
-    ctx.oracle_close('longitude: overlaps of a source cell add up to its width', ov.sum(axis=0), sup - slo, scale=PERIOD)
+    _apply_oracles(ctx, 'longitude', w, x, mt, ms)
+    ctx.oracle_close('longitude: cells partition the circle', [float(ms.sum()), float(mt.sum())], [PERIOD, PERIOD], scale=PERIOD)
+    ctx.oracle_close('longitude: overlaps of a target cell add up to its width', ov.sum(axis=1), mt, scale=PERIOD)
+    ctx.oracle_close('longitude: overlaps of a source cell add up to its width', ov.sum(axis=0), ms, scale=PERIOD)
+    wj = np.asarray(hi.conservative_longitude_weights(jnp.asarray(sx), jnp.asarray(tx)))
+    ctx.oracle('longitude: jax-array and numpy-array inputs give identical weights', bool(np.array_equal(w, wj)))
+    if a.get('identity'):
+        ctx.oracle_close('longitude: target = source gives the identity matrix', w, np.eye(n), scale=1.0)
 
 
 def r_coarse_lon(ctx, a):
@@ -416,6 +552,15 @@ def r_hybrid(ctx, a):
     x = _field(a['fseed'], (m,) + sp.shape, 200 * 8, 300 * 8)
     out = np.asarray(vi.regrid_hybrid_to_sigma(jnp.asarray(x), h, sig, jnp.asarray(sp)))
     ctx.exact('regrid_hybrid_to_sigma shape', list(out.shape), [n] + list(sp.shape))
+    if a.get('forms'):
+        same = lambda o: bool(np.array_equal(np.isnan(np.asarray(o)), np.isnan(out)) and
+                              np.allclose(np.nan_to_num(np.asarray(o, dtype=np.float64)), np.nan_to_num(out), rtol=0, atol=1e-9))
+        ctx.oracle('hybrid->sigma: float32 field gives the float64 result', same(vi.regrid_hybrid_to_sigma(jnp.asarray(x, dtype=jnp.float32), h, sig, jnp.asarray(sp))))
+        d = vi.regrid_hybrid_to_sigma({'t': jnp.asarray(x), 'u': jnp.asarray(2 * x), 's': 3.0}, h, sig, jnp.asarray(sp))
+        ctx.oracle('hybrid->sigma: pytrees are regridded leaf by leaf, scalars untouched', same(d['t']) and d['s'] == 3.0 and
+                   bool(np.allclose(np.nan_to_num(np.asarray(d['u'])), 2 * np.nan_to_num(out), rtol=0, atol=1e-9)))
+        ctx.oracle('hybrid->sigma: vertical ConservativeRegridder class = regrid_hybrid_to_sigma', same(vi.ConservativeRegridder(h, sig)(jnp.asarray(x), jnp.asarray(sp))))
+        ctx.oracle('hybrid->sigma: repeated calls are bit-identical', bool(np.array_equal(np.asarray(vi.regrid_hybrid_to_sigma(jnp.asarray(x), h, sig, jnp.asarray(sp))), out, equal_nan=True)))
     tb = np.asarray(sig.boundaries, dtype=np.float64)
     for idx in np.ndindex(sp.shape):
         hb = np.asarray(h.get_sigma_boundaries(sp[idx]))
@@ -431,8 +576,11 @@ def r_hybrid(ctx, a):
         ctx.exact('regrid_hybrid_to_sigma: NaN layers = layers with zero total overlap', nanrow.astype(int).tolist(), [int(t == 0) for t in tot])
         ctx.corr('regrid_hybrid_to_sigma', np.where(nanrow, 0.0, ocol), mm[m + 1:m + 1 + n], scale=float(np.abs(col).max()))
         w = np.asarray(vi.conservative_regrid_weights(hb, tb))
-        _vert_oracles(ctx, 'hybrid->sigma', w, hb, tb, col, ocol)
-        cov = _ov1(tb[:-1], tb[1:], hb[0], hb[-1])
+        hbr = np.asarray(h.a_boundaries, dtype=np.float64) / float(sp[idx]) + np.asarray(h.b_boundaries, dtype=np.float64)   # a/sp + b, independently
+        ctx.oracle_close('hybrid bounds are a/sp + b', hb, hbr, scale=1.0)
+        _vert_oracles(ctx, 'hybrid->sigma', w, hbr, tb, col, ocol)
+        cov = _ov1(tb[:-1], tb[1:], hbr[0], hbr[-1])
+        ctx.count('hybrid:' + ('some target layers miss the source range (NaN)' if np.any(cov == 0) else 'all target layers hit the source range'))
         ctx.count('hybrid:' + ('fully covered' if np.all(cov == np.diff(tb)) else 'partially covered'))
 
 
@@ -476,6 +624,8 @@ def _nan_pattern(pat, shape, seed):
     elif pat == 'row': mask[:, int(r.integers(0, shape[1]))] = True            # a whole latitude circle
     elif pat == 'lonline': mask[int(r.integers(0, shape[0])), :] = True          # a whole meridian
     elif pat == 'all': mask[:] = True
+    elif pat == 'band':                                                         # several adjacent latitude circles
+        j0 = int(r.integers(0, shape[1])); mask[:, max(0, j0 - 1):j0 + 2] = True
     elif pat == 'blob':
         i0, j0 = int(r.integers(0, shape[0])), int(r.integers(0, shape[1]))
         for di in range(-(shape[0] // 4), shape[0] // 4 + 1):
@@ -484,20 +634,80 @@ def _nan_pattern(pat, shape, seed):
     return mask
 
 
+def _ref_grid(spec):
+    """node coordinates from the grid definition and reference weights/measures (no implementation calls)"""
+    return ref_lon_nodes(spec['nlon'], float(spec['offset'])), ref_lat_nodes(spec['spacing'], spec['nlat'])
+
+
+def _make_field(kind, seed, shape):
+    nb, nd = shape[-2:]
+    if kind == 'delta':                                   # a single non-zero cell
+        r = np.random.Generator(np.random.PCG64(seed + 5)); f = np.zeros(shape)
+        f[..., int(r.integers(0, nb)), int(r.integers(0, nd))] = 2.0
+        return f
+    if kind == 'zonal':                                   # depends on latitude only
+        return np.broadcast_to(_field(seed, shape[:-2] + (1, nd)), shape).copy()
+    if kind == 'zero':
+        return np.zeros(shape)
+    if kind == 'integer':
+        return np.round(_field(seed, shape) * 8)
+    return _field(seed, shape)
+
+
 def r_regrid2d(ctx, a):
     jnp, hi, vi, sh, sc = J()
     src, tgt = grid(a['src']), grid(a['tgt'])
     skipna = bool(a['skipna'])
     rg = hi.ConservativeRegridder(src, tgt, skipna=skipna)
     nb, nd = src.nodal_shape; na, nc = tgt.nodal_shape
-    vals = _field(a['fseed'], (nb, nd))
+    vals = _make_field(a.get('fkind', 'random'), a['fseed'], (nb, nd))
     nanmask = _nan_pattern(a['pattern'], (nb, nd), a['fseed'])
     field = np.where(nanmask, np.nan, vals)
     out = np.asarray(rg(jnp.asarray(field)))
     ctx.exact('ConservativeRegridder output shape', list(out.shape), [na, nc])
     _weight_oracles(ctx, '2d longitude', np.asarray(rg.lon_weights)); _weight_oracles(ctx, '2d latitude', np.asarray(rg.lat_weights))
     _lon_obligations(ctx, np.asarray(src.longitudes)); _lon_obligations(ctx, np.asarray(tgt.longitudes))
-    _slice_checks(ctx, rg, src, tgt, skipna, vals, nanmask, out, a['model'])
+    _slice_checks(ctx, rg, a['src'], a['tgt'], skipna, vals, nanmask, out, a['model'])
+    if a.get('identity') and not nanmask.any():
+        ctx.oracle_close('2d: target = source returns the input field', out, vals, scale=float(np.abs(vals).max()) + 1e-300)
+    if a.get('forms'):
+        # other array forms / dtypes of the same data give the same result (values are exactly representable in float32)
+        same = lambda o: bool(np.array_equal(np.isnan(np.asarray(o)), np.isnan(out)) and
+                              np.allclose(np.nan_to_num(np.asarray(o, dtype=np.float64)), np.nan_to_num(out), rtol=0, atol=1e-12 * (1 + np.abs(vals).max())))
+        ctx.oracle('2d: float32 field gives the float64 result', same(rg(jnp.asarray(field, dtype=jnp.float32))))
+        ctx.oracle('2d: numpy (non-jax) field gives the same result', same(rg(field)))
+        ctx.oracle('2d: Fortran-ordered / strided view gives the same result', same(rg(np.asfortranarray(field))) and
+                   same(rg(np.repeat(field, 2, axis=0)[::2])))
+        if not nanmask.any() and a.get('fkind') == 'integer':
+            ctx.oracle('2d: integer-typed field gives the float result', same(rg(jnp.asarray(vals.astype(np.int64)))))
+        # purity: repeated and interleaved evaluation is bit-identical
+        other = np.asarray(rg(jnp.asarray(vals + 1.0)))
+        again = np.asarray(rg(jnp.asarray(field)))
+        ctx.oracle('2d: repeated / interleaved calls are bit-identical', bool(np.array_equal(again, out, equal_nan=True)))
+        ctx.oracle('2d: cached weights are not mutated by calls', bool(np.array_equal(np.asarray(rg.lon_weights),
+                   np.asarray(hi.conservative_longitude_weights(np.asarray(src.longitudes), np.asarray(tgt.longitudes))))))
+
+
+def r_static_pairs(ctx, a):
+    """Regridders that differ in ONE field (source offset, latitude spacing, skipna), used in the same
+    process in both orders: each must follow its own configuration (jit static arguments, caches)."""
+    jnp, hi, vi, sh, sc = J()
+    specs = [a['src'], dict(a['src'], offset=a['offset2']), dict(a['src'], spacing=a['spacing2'])]
+    vals = _field(a['fseed'], (a['src']['nlon'], a['src']['nlat']))
+    nanmask = _nan_pattern('single', vals.shape, a['fseed'])
+    field = np.where(nanmask, np.nan, vals)
+    order = a['order']
+    outs = {}
+    for rep in range(2):
+        for idx in (order if rep == 0 else order[::-1]):
+            spec = specs[idx % 3]; skipna = bool(idx // 3)
+            rg = hi.ConservativeRegridder(grid(spec), grid(a['tgt']), skipna=skipna)
+            out = np.asarray(rg(jnp.asarray(field)))
+            if idx in outs:
+                ctx.oracle('configurations differing in one field: result independent of evaluation order',
+                           bool(np.array_equal(outs[idx], out, equal_nan=True)), {'config': idx})
+            outs[idx] = out
+            _slice_checks(ctx, rg, spec, a['tgt'], skipna, vals, nanmask, out, False)
 
 
 def r_regrid_batch(ctx, a):
@@ -508,7 +718,7 @@ def r_regrid_batch(ctx, a):
     skipna = bool(a['skipna'])
     rg = hi.ConservativeRegridder(src, tgt, skipna=skipna)
     nb, nd = src.nodal_shape; na, nc = tgt.nodal_shape
-    lead = tuple(a['lead']); pats = a['patterns']
+    lead = tuple(nb if v == 'nlon' else int(v) for v in a['lead']); pats = a['patterns']
     nsl = int(np.prod(lead))
     vals = _field(a['fseed'], (nsl, nb, nd))
     masks = np.stack([_nan_pattern(pats[s % len(pats)], (nb, nd), a['fseed'] + 101 * s) for s in range(nsl)])
@@ -524,27 +734,40 @@ def r_regrid_batch(ctx, a):
                    {'slice': s, 'pattern': pats[s % len(pats)]})
         ctx.oracle_close('leading axes are regridded independently (values)', np.nan_to_num(outs[s], nan=0.0, posinf=1e300, neginf=-1e300),
                          np.nan_to_num(one, nan=0.0, posinf=1e300, neginf=-1e300), scale=float(np.abs(vals).max()) * 1e3)
-        _slice_checks(ctx, rg, src, tgt, skipna, vals[s], masks[s], outs[s], a['model'] and s < 4)
+        if s < 6:
+            _slice_checks(ctx, rg, a['src'], a['tgt'], skipna, vals[s], masks[s], outs[s], a['model'] and s < 4)
 
 
-def _slice_checks(ctx, rg, src, tgt, skipna, vals, nanmask, out, use_model):
-    """oracles (and model comparison) for one [lon, lat] slice and its regridded output"""
+def _slice_checks(ctx, rg, sspec, tspec, skipna, vals, nanmask, out, use_model):
+    """oracles (and model comparison) for one [lon, lat] slice and its regridded output; the
+    reference weights and cell measures are computed independently from the grid definition"""
     jnp, hi, vi, sh, sc = J()
+    src, tgt = grid(sspec), grid(tspec)
     nb, nd = src.nodal_shape; na, nc = tgt.nodal_shape
     field = np.where(nanmask, np.nan, vals)
     slon = np.asarray(src.longitudes); tlon = np.asarray(tgt.longitudes)
     slat = np.asarray(src.latitudes); tlat = np.asarray(tgt.latitudes)
-    wlon = np.asarray(rg.lon_weights); wlat = np.asarray(rg.lat_weights)
-    # implementation-side bookkeeping used by the oracles
+    rslon, rslat = _ref_grid(sspec); rtlon, rtlat = _ref_grid(tspec)
+    ctx.oracle_close('grid nodes follow the grid definition', np.concatenate([slon, tlon, slat, tlat]),
+                     np.concatenate([rslon, rtlon, rslat, rtlat]), scale=2 * np.pi)
+    wlon, lon_t, lon_s = ref_lon_weights(rslon, rtlon)
+    wlat, lat_t, lat_s = ref_lat_weights(rslat, rtlat)
+    ctx.oracle_close('2d: lon_weights equal the independently computed overlap fractions', np.asarray(rg.lon_weights), wlon, scale=1.0)
+    ctx.oracle_close('2d: lat_weights equal the independently computed area fractions', np.asarray(rg.lat_weights), wlat, scale=1.0)
     good = np.where(nanmask, 0.0, 1.0)
     frac = np.einsum('ab,cd,bd->ac', wlon, wlat, good)
     nanw = np.einsum('ab,cd,bd->ac', wlon, wlat, 1.0 - good)
-    posw = np.einsum('ab,cd,bd->ac', (wlon > 0) * 1.0, (wlat > 0) * 1.0, 1.0 - good)   # NaN cells with positive weight
-    posg = np.einsum('ab,cd,bd->ac', (wlon > 0) * 1.0, (wlat > 0) * 1.0, good)
+    pos_lon = (wlon > 1e-12) * 1.0; pos_lat = (wlat > 1e-12) * 1.0     # genuinely overlapping cells
+    posw = np.einsum('ab,cd,bd->ac', pos_lon, pos_lat, 1.0 - good)
+    posg = np.einsum('ab,cd,bd->ac', pos_lon, pos_lat, good)
     isn = np.isnan(out)
     tol = float(TOL_ISCLOSE); slack = 1e-9
     if skipna:
-        ctx.oracle('skipna=True: NaN exactly where every overlapping source cell is NaN', bool(np.array_equal(isn, posg == 0)),
+        # a valid source cell that merely touches the target cell may get a rounding-size weight: undecidable there
+        touchg = np.einsum('ab,cd,bd->ac', ref_touch(rslon, rtlon, True), ref_touch(rslat, rtlat, False), good)
+        sure = (touchg == 0) | (posg > 0)
+        ctx.count('2d:skipna cells undecidable (valid cell only touches)', int((~sure).sum()))
+        ctx.oracle('skipna=True: NaN exactly where every overlapping source cell is NaN', bool(np.array_equal(isn[sure], (posg == 0)[sure])),
                    {'nan_out': int(isn.sum()), 'expected': int((posg == 0).sum())})
     else:
         ctx.oracle('skipna=False: not NaN where no overlapping source cell is NaN', bool(not np.any(isn & (posw == 0))))
@@ -553,20 +776,22 @@ def _slice_checks(ctx, rg, src, tgt, skipna, vals, nanmask, out, use_model):
         ctx.oracle('skipna=False: NaN only where overlapping NaN cells carry at least the isclose slack',
                    bool(not np.any(isn & (nanw < tol - slack))))
     fin = ~isn
-    if fin.any():
+    ctx.oracle('2d: outputs are finite or NaN (never infinite)', bool(not np.any(np.isinf(out))))
+    if fin.any() and not nanmask.all():
         vmin = np.nanmin(field); vmax = np.nanmax(field)
         ctx.oracle('2d: finite outputs within [min,max] of the non-NaN inputs',
                    bool(np.all(out[fin] >= vmin - 1e-10) and np.all(out[fin] <= vmax + 1e-10)),
                    {'vmin': float(vmin), 'vmax': float(vmax), 'omin': float(out[fin].min()), 'omax': float(out[fin].max())})
         expect = np.einsum('ab,cd,bd->ac', wlon, wlat, np.where(nanmask, 0.0, vals)) / np.where(frac > 0, frac, 1.0)
-        ctx.oracle_close('2d: finite outputs are the weight-renormalised mean of the non-NaN overlapping cells', out[fin], expect[fin],
-                         scale=float(np.abs(vals).max()) / max(float(frac[fin].min()), 1e-3))
+        chk = fin & (frac > 1e-6) & ((posg > 0) if skipna else True)
+        ctx.oracle_close('2d: finite outputs are the weight-renormalised mean of the non-NaN overlapping cells', out[chk], expect[chk],
+                         scale=(float(np.abs(vals).max()) + 1e-300) / max(float(frac[chk].min()) if chk.any() else 1.0, 1e-3))
+    elif nanmask.all():
+        ctx.oracle('2d: an all-NaN field gives an all-NaN output', bool(isn.all()))
     if not nanmask.any():
-        sb = np.asarray(hi._latitude_cell_bounds(slat)); tb = np.asarray(hi._latitude_cell_bounds(tlat))
-        _, slo, sup = _lon_cells(hi, slon); _, tlo, tup = _lon_cells(hi, tlon)
-        At = np.outer(tup - tlo, np.diff(np.sin(tb))); As = np.outer(sup - slo, np.diff(np.sin(sb)))
+        At = np.outer(lon_t, lat_t); As = np.outer(lon_s, lat_s)
         ctx.oracle_close('2d: area-weighted integral is conserved', [float((At * out).sum())], [float((As * vals).sum())],
-                         scale=float(4 * np.pi * np.abs(vals).max()))
+                         scale=float(4 * np.pi * max(np.abs(vals).max(), 1e-300)))
         cst = np.asarray(rg(jnp.full((nb, nd), 1.75)))
         ctx.oracle_close('2d: constants are reproduced', cst, np.full((na, nc), 1.75), scale=1.75)
     if use_model:
@@ -579,12 +804,12 @@ def _slice_checks(ctx, rg, src, tgt, skipna, vals, nanmask, out, use_model):
         k = na * nc
         mmask = np.array([int(v) for v in mm[:k]]); mfrac = np.array([float(v) for v in mm[2 * k:]])
         # entries whose not-null fraction sits on a decision threshold up to rounding are not compared
-        amb = (np.abs(np.abs(mfrac - 1) - tol) < slack) if not skipna else ((mfrac > 0) & (mfrac < slack)) | ((mfrac == 0) != (frac.ravel() == 0))
+        amb = (np.abs(np.abs(mfrac - 1) - tol) < slack) if not skipna else ((mfrac > 0) & (mfrac < slack)) | ((mfrac == 0) != (frac.ravel() <= slack))
         ctx.count('2d:ambiguous threshold entries', int(amb.sum()))
         ctx.exact('ConservativeRegridder NaN mask', np.where(amb, -1, (~isn).ravel().astype(int)).tolist(), np.where(amb, -1, mmask).tolist())
         both = (~amb) & (mmask == 1) & (~isn.ravel())
         ctx.corr('ConservativeRegridder.__call__ values', np.where(both, out.ravel(), 0.0), [v if b else Fraction(0) for v, b in zip(mm[k:2 * k], both)],
-                 scale=float(np.abs(vals).max()) / max(float(mfrac[both].min()) if both.any() else 1.0, 1e-3))
+                 scale=(float(np.abs(vals).max()) + 1e-300) / max(float(mfrac[both].min()) if both.any() else 1.0, 1e-3))
 
 
-RUNNERS = {'coarse_lon': r_coarse_lon, 'pov': r_pov, 'align': r_align, 'lat': r_lat, 'lon': r_lon, 'vert': r_vert, 'hybrid': r_hybrid, 'regrid2d': r_regrid2d, 'regrid_batch': r_regrid_batch, 'hybrid_batch': r_hybrid_batch}
+RUNNERS = {'coarse_lon': r_coarse_lon, 'pov': r_pov, 'align': r_align, 'lat': r_lat, 'lon': r_lon, 'vert': r_vert, 'hybrid': r_hybrid, 'regrid2d': r_regrid2d, 'static_pairs': r_static_pairs, 'regrid_batch': r_regrid_batch, 'hybrid_batch': r_hybrid_batch}
